@@ -256,3 +256,30 @@ def ref_local(fn, o, depth=0):
     if rv["r"] in ("use", "cast"):
         return ref_local(fn, rv["o"], depth + 1)
     return None
+
+
+def matches_tests(fn, sw, variant):
+    """bool tests produced by `matches!(x, Variant)` lowering: a bool local assigned `true` only over the `variant` edges of
+    discriminant switch `sw` and `false` only over the other edges.  -> [(switch_node, true_label, false_label)]"""
+    from cfg import op_place
+    vedges = set(fn.variant_edges(sw, variant))
+    if not vedges:
+        return []
+    other = set(l for n, l in fn.succs(sw[0])) - vedges
+    r_var = fn.reach([n for n, l in fn.succs(sw[0]) if l in vedges])
+    r_oth = fn.reach([n for n, l in fn.succs(sw[0]) if l in other])
+    out = []
+    for local, ds in fn.defs().items():
+        if "bool" != fn.locals[local]:
+            continue
+        consts = [(node, fn.const_value(pl["rv"]["o"])) for node, kind, pl in ds if kind == "assign" and pl["rv"]["r"] == "use" and pl["rv"]["o"].get("k") is not None]
+        if len(consts) != len(ds) or len(consts) < 2:
+            continue
+        t_nodes = [n for n, v in consts if v == 1]
+        f_nodes = [n for n, v in consts if v == 0]
+        if not t_nodes or not f_nodes:
+            continue
+        if all(n in r_var and not fn.only_via(n, sw[0], list(other)) and fn.only_via(n, sw[0], list(vedges)) for n in t_nodes) and \
+           all(fn.only_via(n, sw[0], list(other)) for n in f_nodes):
+            out += fn.bool_tests(local)
+    return out
